@@ -21,7 +21,7 @@ type ROp struct {
 }
 
 var ReadKinds = []string{"first", "take_struct", "find_all", "find_where", "find_pets", "preload", "find_in_batches", "rows_scan", "count", "pluck", "joins", "assoc_find", "assoc_count",
-	"first_or_init", "first_or_create", "raw_scan", "exec_raw", "row", "last", "preload_cond", "joins_preload"}
+	"first_or_init", "first_or_create", "raw_scan", "exec_raw", "row", "last", "preload_cond", "joins_preload", "find_names", "find_omit_id"}
 
 var preloadPaths = []string{"Company", "Manager", "Account", "Pets", "Pets.Toy", "Toys", "Team", "Languages", "Friends", "Friends.Pets", "Manager.Company", "Team.Account", clause.Associations}
 
@@ -57,6 +57,13 @@ func (op *ROp) Exec(db *gorm.DB) (res Result) {
 	case "find_where":
 		var us []*fam.User
 		return done(db.Where("age > ?", op.Int).Find(&us), &us)
+	case "find_names":
+		// a projection that leaves out the key: the loaded records carry no primary key
+		var us []fam.User
+		return done(db.Select("name", "age").Find(&us), &us)
+	case "find_omit_id":
+		var us []*fam.User
+		return done(db.Omit("id").Where("age > ?", op.Int).Find(&us), &us)
 	case "find_pets":
 		var ps []fam.Pet
 		return done(db.Find(&ps), &ps)
